@@ -172,6 +172,17 @@ func c06Measure(args []string) error {
 	if tier() == "thorough" {
 		reps = 8
 	}
+	// long thin rods at more than 2^9 cells along each axis (lattice indices beyond 1024 half-cells)
+	for ax := 0; ax < 3; ax++ {
+		sz := [3]float64{1, 1, 1}
+		sz[ax] = 40
+		rod, _ := sdf.Box3D(v3.Vec{X: sz[0], Y: sz[1], Z: sz[2]}, 0)
+		off := v3.Vec{X: rnd.Float64(), Y: rnd.Float64(), Z: rnd.Float64()}
+		ms := measShape{name: "long-rod", kind: "exact", s: sdf.Transform3D(rod, sdf.Translate3d(off)), vol: 40, param: fmtf(float64(ax))}
+		for _, which := range []string{"mcu", "mco"} {
+			emit(measure(ms, which, 520, 0, rnd))
+		}
+	}
 	for rep := 0; rep < reps; rep++ {
 		var shapes []measShape
 		// sphere at a random centre
